@@ -297,7 +297,11 @@ def assert_valid_covariance(
     assert np.allclose(covariance, covariance.T)
 
     covariance_eigenvalues = np.linalg.eig(covariance)[0]
-    if np.any(covariance_eigenvalues < negative_tol):
+    # Rounding error in an eigenvalue grows with the size and magnitude of the matrix
+    scale = len(covariance) * max(
+        1.0, np.max(np.abs(covariance_eigenvalues), initial=0.0)
+    )
+    if np.any(covariance_eigenvalues < negative_tol * scale):
         # negative definite matrix is not a valid representation of uncertainty
         raise AssertionError(
             f"Negative {str(name)}:\n{covariance}\nEigen Values: {min(covariance_eigenvalues)}\n{covariance_eigenvalues}"
